@@ -29,6 +29,7 @@ func init() {
 	vsRegister("C14.canonical_accept", vhC14CanonicalAccept)
 	vsRegister("C14.canonical_acceptv1", vhC14CanonicalAcceptV1)
 	vsRegister("C14.decode_limits", vhC14DecodeLimits)
+	vsRegister("C14.decode_limits_lists", vhC14DecodeLimitsLists)
 }
 
 // Laws 1+2 for Ping/Pong: in-limit values round-trip; over-limit payloads fail to encode or the
@@ -398,6 +399,86 @@ func vhC14DecodeLimits() {
 			if len(m.ContentKeys) == 64 {
 				vsCover("acceptv1-at-limit")
 			}
+		}
+	}
+}
+
+// vhC14ListInput builds the encoding of a list of k byte strings of which the first k-1 are empty
+// and the last has s (symbolic) arbitrary bytes, behind a fixed part of hdr bytes whose last four
+// bytes are the offset of the list.
+func vhC14ListInput(hdr, k int, s int) []byte {
+	b := vsBytesN("b", hdr+4*k+s)
+	if hdr >= 4 {
+		b[hdr-4], b[hdr-3], b[hdr-2], b[hdr-1] = byte(hdr), 0, 0, 0
+	}
+	for i := 0; i < k; i++ {
+		o := 4 * k
+		b[hdr+4*i], b[hdr+4*i+1], b[hdr+4*i+2], b[hdr+4*i+3] = byte(o), byte(o>>8), 0, 0
+	}
+	return b
+}
+
+// The count limits of the list messages (256 distances, 64 offered keys, 32 ENRs) and the size
+// limit of each list element (2048) are enforced when decoding, with the limits themselves
+// accepted. Counts are taken at and around the limit and at its double; the element size is
+// symbolic.
+//
+//verif:harness C14.decode_limits_lists unwind=1100 native
+func vhC14DecodeLimitsLists() {
+	switch vsChoose("type", 4) {
+	case 0:
+		k := []int{255, 256, 257, 258, 511, 512, 513, 1024}[vsChoose("k", 8)]
+		b := vsBytesN("b", 4+2*k)
+		b[0], b[1], b[2], b[3] = 4, 0, 0, 0
+		var m FindNodes
+		err := m.UnmarshalSSZ(b)
+		if k <= 256 {
+			vsAssert(err == nil && len(m.Distances) == k, "findnodes-in-limit-accepted")
+			vsCover("findnodes-in-limit")
+		} else {
+			vsAssert(err != nil, "findnodes-distance-limit")
+		}
+	case 1:
+		k := []int{63, 64, 65, 66, 128, 129}[vsChoose("k", 6)]
+		s := vsInt("s")
+		vsAssume(s >= 0 && s <= 2100)
+		var m Offer
+		err := m.UnmarshalSSZ(vhC14ListInput(4, k, s))
+		if k <= 64 && s <= 2048 {
+			vsAssert(err == nil && len(m.ContentKeys) == k && len(m.ContentKeys[k-1]) == s, "offer-in-limit-accepted")
+			if s == 2048 {
+				vsCover("offer-key-at-limit")
+			}
+		} else {
+			vsAssert(err != nil, "offer-limits")
+		}
+	case 2:
+		k := []int{31, 32, 33, 34, 64, 65}[vsChoose("k", 6)]
+		s := vsInt("s")
+		vsAssume(s >= 0 && s <= 2100)
+		var m Nodes
+		err := m.UnmarshalSSZ(vhC14ListInput(5, k, s))
+		if k <= 32 && s <= 2048 {
+			vsAssert(err == nil && len(m.Enrs) == k && len(m.Enrs[k-1]) == s, "nodes-in-limit-accepted")
+			if s == 2048 {
+				vsCover("nodes-enr-at-limit")
+			}
+		} else {
+			vsAssert(err != nil, "nodes-limits")
+		}
+	case 3:
+		k := []int{31, 32, 33, 34, 64, 65}[vsChoose("k", 6)]
+		s := vsInt("s")
+		vsAssume(s >= 0 && s <= 2100)
+		var m Enrs
+		err := m.UnmarshalSSZ(vhC14ListInput(0, k, s))
+		if k <= 32 && s <= 2048 {
+			vsAssert(err == nil && len(m.Enrs) == k && len(m.Enrs[k-1]) == s, "enrs-in-limit-accepted")
+			if s == 2048 {
+				vsCover("enrs-enr-at-limit")
+			}
+		} else {
+			vsAssert(err != nil, "enrs-limits")
 		}
 	}
 }
